@@ -569,6 +569,16 @@ func (m *Memberlist) resetNodes() {
 	// Move dead nodes, but respect gossip to the dead interval
 	deadIdx := moveDeadNodes(m.nodes, m.config.GossipToTheDeadTime)
 
+	// Never reap our own record: LocalNode, UpdateNode and Leave look it up,
+	// also after we have left and the departed record has aged out.
+	for i := deadIdx; i < len(m.nodes); i++ {
+		if m.nodes[i].Name == m.config.Name {
+			m.nodes[deadIdx], m.nodes[i] = m.nodes[i], m.nodes[deadIdx]
+			deadIdx++
+			break
+		}
+	}
+
 	// Deregister the dead nodes
 	for i := deadIdx; i < len(m.nodes); i++ {
 		delete(m.nodeMap, m.nodes[i].Name)
